@@ -92,8 +92,9 @@ func (h *vfFullHost) Network() network.Network       { return h.nw }
 func (h *vfFullHost) Peerstore() peerstore.Peerstore { return h.aps }
 
 type vfFakeCrawler struct {
-	peers []peer.ID
-	runs  int
+	peers    []peer.ID
+	runs     int
+	afterRun func() // runs when a crawl has reported everything, before Run returns
 }
 
 func (c *vfFakeCrawler) Run(ctx context.Context, _ []*peer.AddrInfo, ok crawler.HandleQueryResult, _ crawler.HandleQueryFail) {
@@ -102,9 +103,20 @@ func (c *vfFakeCrawler) Run(ctx context.Context, _ []*peer.AddrInfo, ok crawler.
 		vfYield("crawl")
 		ok(p, nil)
 	}
+	if f := c.afterRun; f != nil {
+		c.afterRun = nil
+		f()
+	}
 }
 
-func VfNewFullRT() {
+func VfNewFullRT() { vfNewFullRTBody(false) }
+
+// VfFullRTCrawlSwapRace (C16): as VfNewFullRT with a second crawl, plus a
+// reader started when that crawl has reported everything, racing with the
+// installation of its results under extra context switches.
+func VfFullRTCrawlSwapRace() { vfNewFullRTBody(true) }
+
+func vfNewFullRTBody(raced bool) {
 	N := vfParam("N")
 	vfHashBits(vfParam("W"))
 	vfHashFixed()
@@ -181,7 +193,7 @@ func VfNewFullRT() {
 		vfAssert(len(got) == want, "fullrt/limit-disabled-returns-the-K-nearest")
 	}
 	// a second crawl in which some peers are no longer reported (no failure either)
-	if vfBool("secondCrawl") {
+	if raced || vfBool("secondCrawl") {
 		var still []peer.ID
 		gone := map[peer.ID]bool{}
 		for _, p := range cr.peers {
@@ -191,9 +203,41 @@ func VfNewFullRT() {
 				gone[p] = true
 			}
 		}
+		before, _ := d.GetClosestPeers(context.Background(), key)
+		if vfBool("secondCrawl.findsANewPeer") {
+			pn := peer.ID(vfHashInput("pnew", nil, 8))
+			group[pn] = vfChoose("group", 2)
+			h.aps.addrs[pn] = []ma.Multiaddr{vfGroupAddr(group[pn], N)}
+			h.nw.conns[pn] = true
+			still = append(still, pn)
+		}
 		cr.peers = still
+		var during []peer.ID
+		if raced {
+			// a reader racing with the swap of the crawl results
+			cr.afterRun = func() {
+				vfSchedBudget(vfParam("SWITCH"))
+				go func() { during, _ = d.GetClosestPeers(context.Background(), key) }()
+			}
+		}
 		vfAssert(d.TriggerRefresh(context.Background()) == nil, "fullrt/trigger-refresh")
 		vfWaitIdle()
+		vfSchedBudget(0)
+		if raced && limit == 0 {
+			after, _ := d.GetClosestPeers(context.Background(), key)
+			same := func(a, b []peer.ID) bool {
+				if len(a) != len(b) {
+					return false
+				}
+				for i := range a {
+					if a[i] != b[i] {
+						return false
+					}
+				}
+				return true
+			}
+			vfAssert(same(during, before) || same(during, after), "fullrt/a-concurrent-reader-sees-the-result-of-one-single-completed-crawl")
+		}
 		vfAssert(cr.runs == 2, "fullrt/second-crawl-ran")
 		got2, gerr2 := d.GetClosestPeers(context.Background(), key)
 		vfAssert(gerr2 == nil, "fullrt/closest-no-error")
@@ -220,3 +264,4 @@ func VfNewFullRT() {
 }
 
 var _ = vfRegister("VfNewFullRT", VfNewFullRT)
+var _ = vfRegister("VfFullRTCrawlSwapRace", VfFullRTCrawlSwapRace)
